@@ -124,6 +124,107 @@ Proof.
   - discriminate.
 Qed.
 
+(* ---------- [Good] is preserved along the reference machine's own turns, and excludes errors ---------- *)
+Lemma good_turn k s rem : Good k s rem -> buf s <> [] ->
+  match turn_of L C k s with
+  | TErr _ => False
+  | TMsg s' m => Good k s' rem
+  | TBlocked _ => True
+  end.
+Proof.
+  intros (Hw & Hc & ms & P & Hms) Hb.
+  pose proof (turn_stable reference C k eq_refl eq_refl eq_refl s rem Hc) as TS.
+  pose proof (turn_ok L C k s Hw) as TO.
+  rewrite (parse_eq L C k s rem), loop_S in P.
+  assert (Hb2 : buf (app_buf s rem) <> []).
+  { unfold app_buf. cbn [buf]. intros E0. apply app_eq_nil in E0 as [E0 _]. contradiction. }
+  destruct (buf (app_buf s rem)) as [|c X] eqn:B0; [contradiction|].
+  destruct (turn_of L C k s) as [s1|s' m|e].
+  - exact I.
+  - destruct TS as [TS Hc']. destruct TO as [Hlen Hw']. rewrite TS in P.
+    rewrite (loop_acc L C k) in P.
+    destruct (loop L C k (Datatypes.length (buf s ++ rem)) (app_buf s' rem) []) as [[s2 ms2] e2] eqn:LP.
+    cbn [rev app] in P. injection P as -> <- ->. inversion Hms as [|m' ms' Hm Hms']; subst.
+    split; [exact Hw'|]. split; [exact Hc'|]. exists ms2. split; [|exact Hms'].
+    rewrite (parse_eq L C k s' rem).
+    rewrite <- LP. apply (loop_fuel L C k); [exact Hw' | |]; unfold app_buf; cbn [buf]; rewrite !app_length in *; lia.
+  - rewrite TS in P. discriminate.
+Qed.
+
+
+Lemma good_app k sl f rem : Good k sl (f ++ rem) -> Good k (app_buf sl f) rem.
+Proof.
+  intros (Hw & Hc & ms & P & Hms). split; [exact Hw|]. split; [exact Hc|]. exists ms. split; [|exact Hms].
+  rewrite <- P, !(parse_eq L C k). unfold app_buf. cbn [buf cur]. rewrite <- !app_assoc. reflexivity.
+Qed.
+
+(* ---------- the general argument: an invariant [Fr] of the eager machine's states under which [real] takes the eager
+   machine's turn whenever LF mode is not selected (i.e. the 411 peek does not fire) ---------- *)
+Section General.
+Variable k : kind.
+Variable Fr : pstate -> Prop.
+Hypothesis Fr_app : forall s d, Fr s -> Fr (app_buf s d).
+Hypothesis Fr_real : forall s, Fr s -> lf_select s = false -> turn_of real C k s = turn_of E C k s.
+Hypothesis Fr_turn : forall s, Fr s -> match turn_of E C k s with TMsg s' _ | TBlocked s' => Fr s' | TErr _ => True end.
+
+Lemma quiet_loop_good F : forall se sl rem, Rst se sl -> wf_st se -> Fr se -> Good k sl rem ->
+  quiet_loop C k F se = true.
+Proof.
+  induction F as [|f IH]; intros se sl rem HR We HF HG; cbn [quiet_loop]; [destruct (buf se); reflexivity|].
+  destruct (buf se) as [|c x] eqn:Be; [reflexivity|].
+  assert (Hbl : buf sl <> []).
+  { intros E0. apply (Rst_empty se sl HR) in E0. rewrite Be in E0. discriminate. }
+  pose proof (good_lf_safe k se sl rem HR HG) as Hlf.
+  pose proof (good_turn k sl rem HG Hbl) as GT.
+  pose proof (turn_sim C k se sl HR) as TS.
+  pose proof (turn_ok E C k se We) as TO.
+  pose proof (Fr_turn se HF) as FT.
+  unfold quiet_turn. rewrite Hlf, (Fr_real se HF Hlf). cbn [negb andb].
+  destruct (turn_of L C k sl) as [sl'|sl' m|e].
+  - destruct TS as [(se' & Te & _) | (Te & _)]; rewrite Te; reflexivity.
+  - destruct TS as (se' & Te & HR'). rewrite Te in *. cbn [is_peek negb andb].
+    destruct TO as [_ We']. exact (IH se' sl' rem HR' We' FT GT).
+  - contradiction.
+Qed.
+
+Lemma loop_Fr F : forall s acc, Fr s -> match loop E C k F s acc with (s', _, None) => Fr s' | _ => True end.
+Proof.
+  induction F as [|f IH]; intros s acc HF; cbn [loop].
+  - destruct (buf s); [exact HF | exact I].
+  - destruct (buf s); [exact HF|]. pose proof (Fr_turn s HF) as FT.
+    destruct (turn_of E C k s) as [s'|s' m|e]; [exact FT | apply IH, FT | exact I].
+Qed.
+
+Lemma quiet_parse_good se sl f rem : Rst se sl -> wf_st se -> Fr se -> Good k sl (f ++ rem) ->
+  quiet_parse C k se f = true.
+Proof.
+  intros HR We HF HG. unfold quiet_parse.
+  change {| buf := buf se ++ f; cur := cur se |} with (app_buf se f).
+  apply (quiet_loop_good _ (app_buf se f) (app_buf sl f) rem);
+    [apply Rst_app, HR | exact We | apply Fr_app, HF | apply good_app, HG].
+Qed.
+
+Theorem quiet_run_good frags : forall se sl, Rst se sl -> wf_st se -> Fr se -> Good k sl (concat_bytes frags) ->
+  quiet_run C k se frags = true.
+Proof.
+  induction frags as [|f fr IH]; intros se sl HR We HF HG; cbn [quiet_run concat_bytes] in *; [reflexivity|].
+  pose proof (quiet_parse_good se sl f (concat_bytes fr) HR We HF HG) as QP. rewrite QP. cbn [andb].
+  rewrite (parse_real C k se f QP).
+  destruct HG as (Hw & Hc & ms & P & Hms).
+  rewrite (parse_app reference C k eq_refl eq_refl eq_refl sl f (concat_bytes fr) Hw Hc) in P.
+  pose proof (parse_sim C k se sl f HR We Hw) as PS.
+  pose proof (loop_Fr (S (Datatypes.length (buf se ++ f))) (app_buf se f) [] (Fr_app se f HF)) as LF.
+  rewrite <- (parse_eq E C k se f) in LF.
+  destruct (parse L C k sl f) as [[sl1 m1] [e|]] eqn:PL; [discriminate|].
+  destruct (parse L C k sl1 (concat_bytes fr)) as [[s2 m2] e2] eqn:P2. injection P as -> <- ->.
+  destruct (parse_result reference C k eq_refl eq_refl eq_refl sl f sl1 m1 Hw Hc PL) as (_ & Hw1 & Hc1).
+  destruct PS as [(se' & Pe & HR' & We' & _) | (Pe & _)]; rewrite Pe in *; [|reflexivity].
+  apply (IH se' sl1 HR' We' LF). split; [exact Hw1|]. split; [exact Hc1|]. exists m2. split; [exact P2|].
+  apply Forall_app in Hms. exact (proj2 Hms).
+Qed.
+
+End General.
+
 (* ---------- the client machine has no 411 peek: [real] differs from the eager reference machine only by LF mode ---------- *)
 Lemma obc_client cfg1 cfg2 i b : on_body_complete cfg1 C Client i b = on_body_complete cfg2 C Client i b.
 Proof. reflexivity. Qed.
@@ -152,93 +253,152 @@ Proof.
   rewrite PS. destruct (parse_startline E C (buf s)) as [a x'|[[line le] info] rest|e]; reflexivity.
 Qed.
 
-(* ---------- [Good] is preserved along the reference machine's own turns, and excludes errors ---------- *)
-Lemma good_turn k s rem : Good k s rem -> buf s <> [] ->
-  match turn_of L C k s with
-  | TErr _ => False
-  | TMsg s' m => Good k s' rem
-  | TBlocked _ => True
-  end.
-Proof.
-  intros (Hw & Hc & ms & P & Hms) Hb.
-  pose proof (turn_stable reference C k eq_refl eq_refl eq_refl s rem Hc) as TS.
-  pose proof (turn_ok L C k s Hw) as TO.
-  rewrite (parse_eq L C k s rem), loop_S in P.
-  assert (Hb2 : buf (app_buf s rem) <> []).
-  { unfold app_buf. cbn [buf]. intros E0. apply app_eq_nil in E0 as [E0 _]. contradiction. }
-  destruct (buf (app_buf s rem)) as [|c X] eqn:B0; [contradiction|].
-  destruct (turn_of L C k s) as [s1|s' m|e].
-  - exact I.
-  - destruct TS as [TS Hc']. destruct TO as [Hlen Hw']. rewrite TS in P.
-    rewrite (loop_acc L C k) in P.
-    destruct (loop L C k (Datatypes.length (buf s ++ rem)) (app_buf s' rem) []) as [[s2 ms2] e2] eqn:LP.
-    cbn [rev app] in P. injection P as -> <- ->. inversion Hms as [|m' ms' Hm Hms']; subst.
-    split; [exact Hw'|]. split; [exact Hc'|]. exists ms2. split; [|exact Hms'].
-    rewrite (parse_eq L C k s' rem).
-    rewrite <- LP. apply (loop_fuel L C k); [exact Hw' | |]; unfold app_buf; cbn [buf]; rewrite !app_length in *; lia.
-  - rewrite TS in P. discriminate.
-Qed.
-
-(* ---------- the client machine as implemented is quiet along any run that the reference machine completes ---------- *)
-Lemma quiet_loop_good F : forall se sl rem, Rst se sl -> wf_st se -> Good Client sl rem ->
-  quiet_loop C Client F se = true.
-Proof.
-  induction F as [|f IH]; intros se sl rem HR We HG; cbn [quiet_loop]; [destruct (buf se); reflexivity|].
-  destruct (buf se) as [|c x] eqn:Be; [reflexivity|].
-  assert (Hbl : buf sl <> []).
-  { intros E0. apply (Rst_empty se sl HR) in E0. rewrite Be in E0. discriminate. }
-  pose proof (good_lf_safe Client se sl rem HR HG) as Hlf.
-  pose proof (good_turn Client sl rem HG Hbl) as GT.
-  pose proof (turn_sim C Client se sl HR) as TS.
-  pose proof (turn_ok E C Client se We) as TO.
-  unfold quiet_turn. rewrite Hlf, (turn_real_client se Hlf). cbn [negb andb].
-  destruct (turn_of L C Client sl) as [sl'|sl' m|e].
-  - destruct TS as [(se' & Te & _) | (Te & _)]; rewrite Te; reflexivity.
-  - destruct TS as (se' & Te & HR'). rewrite Te in *. cbn [is_peek negb andb].
-    destruct TO as [_ We']. exact (IH se' sl' rem HR' We' GT).
-  - contradiction.
-Qed.
-
-Lemma good_app k sl f rem : Good k sl (f ++ rem) -> Good k (app_buf sl f) rem.
-Proof.
-  intros (Hw & Hc & ms & P & Hms). split; [exact Hw|]. split; [exact Hc|]. exists ms. split; [|exact Hms].
-  rewrite <- P, !(parse_eq L C k). unfold app_buf. cbn [buf cur]. rewrite <- !app_assoc. reflexivity.
-Qed.
-
-Lemma quiet_parse_good se sl f rem : Rst se sl -> wf_st se -> Good Client sl (f ++ rem) ->
-  quiet_parse C Client se f = true.
-Proof.
-  intros HR We HG. unfold quiet_parse.
-  change {| buf := buf se ++ f; cur := cur se |} with (app_buf se f).
-  apply (quiet_loop_good _ (app_buf se f) (app_buf sl f) rem);
-    [apply Rst_app, HR | exact We | apply good_app, HG].
-Qed.
-
-Theorem quiet_run_good frags : forall se sl, Rst se sl -> wf_st se -> Good Client sl (concat_bytes frags) ->
-  quiet_run C Client se frags = true.
-Proof.
-  induction frags as [|f fr IH]; intros se sl HR We HG; cbn [quiet_run concat_bytes] in *; [reflexivity|].
-  pose proof (quiet_parse_good se sl f (concat_bytes fr) HR We HG) as QP. rewrite QP. cbn [andb].
-  rewrite (parse_real C Client se f QP).
-  destruct HG as (Hw & Hc & ms & P & Hms).
-  rewrite (parse_app reference C Client eq_refl eq_refl eq_refl sl f (concat_bytes fr) Hw Hc) in P.
-  pose proof (parse_sim C Client se sl f HR We Hw) as PS.
-  destruct (parse L C Client sl f) as [[sl1 m1] [e|]] eqn:PL; [discriminate|].
-  destruct (parse L C Client sl1 (concat_bytes fr)) as [[s2 m2] e2] eqn:P2. injection P as -> <- ->.
-  destruct (parse_result reference C Client eq_refl eq_refl eq_refl sl f sl1 m1 Hw Hc PL) as (_ & Hw1 & Hc1).
-  destruct PS as [(se' & Pe & HR' & We' & _) | (Pe & _)]; rewrite Pe; [|reflexivity].
-  apply (IH se' sl1 HR' We'). split; [exact Hw1|]. split; [exact Hc1|]. exists m2. split; [exact P2|].
-  apply Forall_app in Hms. exact (proj2 Hms).
-Qed.
 
 End QuietClient.
+
+(* ---------- the server machine: the 411 peek cannot fire when every header section that the header hook accepts is framed ---------- *)
+Section QuietServer.
+Variable C : callees.
+Notation E := eager_reference.
+
+(* a header collection that frames its message: Content-Length, or Transfer-Encoding under HTTP/1.1 (then the machine
+   either reads chunks or refuses the coding: it never falls back to "no body") *)
+Definition framed_h (p : bool) (h : hdrs) : bool := hmem K_CL h || (p && hmem K_TE h).
+Hypothesis Hfr : forall p h, c_hdrs C p h = HOk -> framed_h p h = true.
+
+Definition framed0 (i : inflight) : Prop :=
+  hmem K_CL (i_hdrs i) = true \/ i_chunked i = true \/
+  (i_len i = None /\ p11 (i_info i) = true /\ hmem K_TE (i_hdrs i) = true).
+Definition framed1 (i : inflight) : Prop := hmem K_CL (i_hdrs i) = true \/ i_chunked i = true.
+Definition FrSt (s : pstate) : Prop :=
+  match cur s with
+  | Some i => match i_phase i with PBody => framed0 i | PHeaders => i_len i = None /\ i_chunked i = false end
+  | None => True
+  end.
+
+Lemma obc_framed i b : framed1 i -> on_body_complete real C Server i b = on_body_complete E C Server i b.
+Proof.
+  intros H. unfold on_body_complete. cbn [peek411 real eager_reference andb].
+  assert (Z : nonempty_b b && negb (hmem K_CL (i_hdrs i)) && negb (i_chunked i) = false).
+  { destruct H as [H|H]; rewrite H; cbn [negb]; rewrite ?andb_false_r; reflexivity. }
+  rewrite Z. reflexivity.
+Qed.
+
+Lemma parse_body_framed i b i' b' : framed0 i ->
+  parse_body C i b = Need i' b' \/ parse_body C i b = Done i' b' -> framed1 i'.
+Proof.
+  intros H0. unfold parse_body.
+  set (r := match i_len i, i_chunked i with None, false => determine C i | _, _ => inl i end).
+  assert (R : match r with inl i1 => framed1 i1 | inr _ => True end).
+  { unfold r. destruct (i_len i) as [n|] eqn:Ln.
+    - destruct H0 as [H|[H|(H & _)]]; [left; exact H | right; exact H | congruence].
+    - destruct (i_chunked i) eqn:Ch; [right; exact Ch|].
+      destruct (determine C i) as [i1|e] eqn:D; [|exact I].
+      destruct (determine_spec C i i1 Ch D) as (_ & _ & _ & Eh & _ & _ & _ & _ & Hc).
+      destruct Hc as [Hc | (Hc & Hte & _)]; [right; exact Hc|].
+      destruct H0 as [H|[H|(_ & Hp & Ht)]]; [left; rewrite Eh; exact H | congruence|].
+      exfalso. unfold te_absent_or_10 in Hte. unfold hmem in Ht. destruct Hte as [Hte|Hte]; [rewrite Hte in Ht; discriminate | congruence]. }
+  destruct r as [i1|e]; [|intros [H|H]; discriminate].
+  destruct (i_chunked i1) eqn:Ch1.
+  - intros H. right. destruct (chunks_meta C _ _ _ _ _ H) as (_ & _ & _ & _ & Ec & _). rewrite Ec. exact Ch1.
+  - destruct R as [R|R]; [|congruence].
+    destruct (i_len i1) as [[|p]|] eqn:L1.
+    + intros [H|H]; [discriminate | injection H as <- _; left; exact R].
+    + intros H. destruct (body_with_length_spec i1 (N.pos p) b ltac:(lia)) as [_ S2].
+      destruct (S2 i' b' H) as (_ & _ & _ & Eh & _ & _). left. rewrite Eh. exact R.
+    + intros [H|H]; [discriminate | injection H as <- _; left; exact R].
+Qed.
+
+Lemma framed1_0 i : framed1 i -> framed0 i.
+Proof. intros [H|H]; [left | right; left]; exact H. Qed.
+
+Lemma after_headers_Fr i b : framed0 i ->
+  after_headers real C Server i b = after_headers E C Server i b /\
+  (forall i' b', parse_body C i b = Need i' b' -> framed0 i').
+Proof.
+  intros H0. rewrite (after_headers_eq real C Server i b), (after_headers_eq E C Server i b). split.
+  - destruct (parse_body C i b) as [i' b'|i' b'|e] eqn:PB; try reflexivity.
+    rewrite (obc_framed i' b' (parse_body_framed i b i' b' H0 (or_intror PB))). reflexivity.
+  - intros i' b' PB. apply framed1_0, (parse_body_framed i b i' b' H0 (or_introl PB)).
+Qed.
+
+Lemma after_headers_FrSt i b : i_phase i = PBody -> framed0 i ->
+  match after_headers E C Server i b with TMsg s' _ | TBlocked s' => FrSt s' | TErr _ => True end.
+Proof.
+  intros Hp H0. rewrite (after_headers_eq E C Server i b).
+  destruct (parse_body C i b) as [i' b'|i' b'|e] eqn:PB; [| |exact I].
+  - unfold FrSt. cbn [cur]. destruct (parse_body_meta C i b i' b' (or_introl PB)) as (_ & _ & P). rewrite P, Hp.
+    exact (proj2 (after_headers_Fr i b H0) i' b' PB).
+  - destruct (on_body_complete E C Server i' b'); exact I.
+Qed.
+
+Definition FrI (i : inflight) : Prop :=
+  match i_phase i with PBody => framed0 i | PHeaders => i_len i = None /\ i_chunked i = false end.
+
+Lemma ohc_framed i i2 : i_len i = None -> i_chunked i = false -> on_headers_complete C Server i = inl i2 -> framed0 i2.
+Proof.
+  intros Ln Ch O. unfold on_headers_complete in O.
+  destruct (p11 (i_info i) && negb (hmem K_HOST (i_hdrs i))); [discriminate|].
+  destruct (c_hdrs C (p11 (i_info i)) (i_hdrs i)) eqn:HC; try discriminate.
+  injection O as <-. pose proof (Hfr _ _ HC) as F. unfold framed_h in F.
+  unfold framed0, set_ce, set_hdrs, hc_hdrs, connect_response. cbn [i_hdrs i_chunked i_len i_info].
+  apply orb_true_iff in F as [F|F]; [left; exact F|]. apply andb_true_iff in F as [F1 F2].
+  right. right. repeat split; assumption.
+Qed.
+
+Lemma after_startline_Fr i b : FrI i ->
+  after_startline real C Server i b = after_startline E C Server i b /\
+  match after_startline E C Server i b with TMsg s' _ | TBlocked s' => FrSt s' | TErr _ => True end.
+Proof.
+  unfold FrI. intros HI. rewrite (after_startline_eq real C Server i b), (after_startline_eq E C Server i b).
+  destruct (i_phase i) eqn:Ph.
+  - destruct HI as [Ln Ch].
+    change (parse_headers real (i_le i) (i_hdrs i) b) with (parse_headers E (i_le i) (i_hdrs i) b).
+    destruct (parse_headers E (i_le i) (i_hdrs i) b) as [h b'|h b'|e]; [| |split; [reflexivity | exact I]].
+    + split; [reflexivity|]. unfold FrSt. cbn [cur set_hdrs i_phase i_len i_chunked]. rewrite Ph. split; assumption.
+    + destruct (on_headers_complete C Server (set_phase (set_hdrs i h) PBody)) as [i2|e2] eqn:O; [|split; [reflexivity | exact I]].
+      assert (F2 : framed0 i2) by (apply (ohc_framed _ i2) in O; [exact O | exact Ln | exact Ch]).
+      assert (P2 : i_phase i2 = PBody) by (apply on_headers_complete_spec in O; subst i2; reflexivity).
+      split; [exact (proj1 (after_headers_Fr i2 b' F2)) | exact (after_headers_FrSt i2 b' P2 F2)].
+  - split; [exact (proj1 (after_headers_Fr i b HI)) | exact (after_headers_FrSt i b Ph HI)].
+Qed.
+
+Lemma FrSt_FrI s i : FrSt s -> cur s = Some i -> FrI i.
+Proof. unfold FrSt, FrI. intros H Cu. rewrite Cu in H. exact H. Qed.
+
+Lemma server_Fr_real s : FrSt s -> lf_select s = false -> turn_of real C Server s = turn_of E C Server s.
+Proof.
+  intros HF. unfold lf_select. rewrite (turn_of_eq real C Server s), (turn_of_eq E C Server s).
+  destruct (cur s) as [i|] eqn:Cu; [intros _; exact (proj1 (after_startline_Fr i (buf s) (FrSt_FrI s i HF Cu)))|]. intros H1.
+  assert (PS : parse_startline real C (buf s) = parse_startline E C (buf s)).
+  { unfold parse_startline. cbn [allow_lf real eager_reference andb].
+    destruct (contains CRLF (buf s)); [reflexivity|]. cbn [negb andb] in H1. rewrite H1. reflexivity. }
+  rewrite PS. destruct (parse_startline E C (buf s)) as [a x'|[[line le] info] rest|e]; try reflexivity.
+  match goal with |- after_startline real C Server ?i ?b = _ => apply (proj1 (after_startline_Fr i b (conj eq_refl eq_refl))) end.
+Qed.
+
+Lemma server_Fr_turn s : FrSt s ->
+  match turn_of E C Server s with TMsg s' _ | TBlocked s' => FrSt s' | TErr _ => True end.
+Proof.
+  intros HF. rewrite (turn_of_eq E C Server s).
+  destruct (cur s) as [i|] eqn:Cu; [exact (proj2 (after_startline_Fr i (buf s) (FrSt_FrI s i HF Cu)))|].
+  destruct (parse_startline E C (buf s)) as [a x'|[[line le] info] rest|e]; [| |exact I].
+  - unfold FrSt. rewrite Cu. exact I.
+  - match goal with |- match after_startline E C Server ?i ?b with _ => _ end => exact (proj2 (after_startline_Fr i b (conj eq_refl eq_refl))) end.
+Qed.
+
+End QuietServer.
 
 (* ---------- the fragmentation theorems for the client machine AS IMPLEMENTED, without the quiet-run hypothesis ---------- *)
 Theorem client_quiet (C : callees) wire ms frags :
   parse reference C Client init wire = (init, ms, None) -> Forall (fun m => no_lf (m_line m) = true) ms ->
   concat_bytes frags = wire -> quiet_run C Client init frags = true.
 Proof.
-  intros P Hms Ec. apply (quiet_run_good C frags init init); [reflexivity | exact I |].
+  intros P Hms Ec.
+  assert (TT : forall s : pstate, True -> match turn_of eager_reference C Client s with TMsg s' _ | TBlocked s' => (fun _ : pstate => True) s' | TErr _ => True end)
+    by (intros s _; destruct (turn_of eager_reference C Client s); exact I).
+  apply (quiet_run_good C Client (fun _ => True) (fun _ _ _ => I) (fun s _ Hlf => turn_real_client C s Hlf) TT frags init init);
+    [reflexivity | exact I | exact I |].
   split; [exact I|]. split; [exact I|]. exists ms. rewrite Ec. split; assumption.
 Qed.
 
@@ -248,5 +408,26 @@ Theorem client_any_fragmentation (C : callees) wire ms frags :
 Proof.
   intros P Hms Ec. destruct (whole_call_any_fragmentation C Client wire ms frags P Ec) as [_ R].
   apply R. exact (client_quiet C wire ms frags P Hms Ec).
+Qed.
+
+(* ---------- ... and for the server machine when every header section its header hook accepts is framed ---------- *)
+Theorem server_quiet (C : callees) wire ms frags :
+  (forall p h, c_hdrs C p h = HOk -> framed_h p h = true) ->
+  parse reference C Server init wire = (init, ms, None) -> Forall (fun m => no_lf (m_line m) = true) ms ->
+  concat_bytes frags = wire -> quiet_run C Server init frags = true.
+Proof.
+  intros Hfr P Hms Ec.
+  apply (quiet_run_good C Server FrSt (fun s d H => H) (server_Fr_real C Hfr) (server_Fr_turn C Hfr) frags init init);
+    [reflexivity | exact I | exact I |].
+  split; [exact I|]. split; [exact I|]. exists ms. rewrite Ec. split; assumption.
+Qed.
+
+Theorem server_any_fragmentation (C : callees) wire ms frags :
+  (forall p h, c_hdrs C p h = HOk -> framed_h p h = true) ->
+  parse reference C Server init wire = (init, ms, None) -> Forall (fun m => no_lf (m_line m) = true) ms ->
+  concat_bytes frags = wire -> run_keep real C Server init frags = (init, ms, None).
+Proof.
+  intros Hfr P Hms Ec. destruct (whole_call_any_fragmentation C Server wire ms frags P Ec) as [_ R].
+  apply R. exact (server_quiet C wire ms frags Hfr P Hms Ec).
 Qed.
 
